@@ -1,7 +1,7 @@
 (* Correspondence of model/Network.v with two recorded real endpoints whose link the harness plays (harness/netrec.py). *)
 From Coq Require Import NArith List Bool Init.Byte.
 From RSV Require Import gen.GenConst lib.Bytes model.Frame model.Fragmenter model.StreamIds model.Endpoint model.Network
-     corr.C13Corr corr.C02Corr corr.EndpointCorr.
+     corr.C13Corr corr.C02Corr corr.EndpointCorr proofs.NetworkExact.
 Import ListNotations.
 Open Scope N_scope.
 
@@ -42,3 +42,32 @@ Definition first_bad_net (c : case_net) : option nat :=
   | (n, None) => if list_eqb fr_eqb (to_a n) qa && list_eqb fr_eqb (to_b n) qb then None else Some (length rs)
   | (_, Some i) => Some i
   end.
+
+(* ---------- how often do recorded histories of the REAL endpoints meet the premises of C01_network_exactly_once? ----------
+   For a recorded history: the (side, stream) pairs, stream <> 0, on which the side was listening throughout
+   (listeningb, sound for `listening`), nothing of the stream is still under way, and at least one payload with content
+   was given to the application.  On those the conclusion is recomputed as well (it cannot fail: the theorem). *)
+Definition nil_l {A} (l : list A) : bool := match l with [] => true | _ => false end.
+
+Definition pay_eqb (a b : bytes * bytes) : bool := bytes_eqb (fst a) (fst b) && bytes_eqb (snd a) (snd b).
+
+Definition exact_pairs (c : case_net) : list (side * N) :=
+  let '(rs, _, _) := c in
+  let ls := map (fun r : nrec => fst (fst r)) rs in
+  let res := net_run net_init ls in
+  let keys := nodup N.eq_dec (map fsid (nwire (snd res) SA ++ nwire (snd res) SB)) in
+  flat_map (fun k => flat_map (fun s =>
+      if negb (k =? 0) && listeningb net_init ls s k && nil_l (on_stream k (inbox (fst res) s))
+         && negb (nil_l (wanted (got (snd res) s k)))
+      then [(s, k)] else []) [SA; SB]) keys.
+
+Definition exact_conclusion (c : case_net) : bool :=
+  let '(rs, _, _) := c in
+  let ls := map (fun r : nrec => fst (fst r)) rs in
+  let res := net_run net_init ls in
+  forallb (fun sk : side * N => let (s, k) := sk in
+             list_eqb pay_eqb (wanted (got (snd res) s k)) (wanted (pmap carried (on_stream k (nwire (snd res) (other s))))))
+          (exact_pairs c).
+
+(* true = the premises are met nowhere in this history (so that Harness.report counts the histories where they are) *)
+Definition exact_vacuous (c : case_net) : bool := nil_l (exact_pairs c).
